@@ -440,7 +440,28 @@ class Core:
             groups.setdefault(self._compat_key(s), []).append(s)
         out = []
         for grp in groups.values():
-            out.append(grp[0] if len(grp) == 1 else self._merge_group(grp))
+            if len(grp) == 1:
+                out.append(grp[0])
+                continue
+            # split the group so that only states whose heaps differ by writes to self-allocated objects are joined
+            sub = {}
+            for s in grp:
+                sig = []
+                for f in sorted(s.heap):
+                    b, lo = self._peel_fresh_stores(s.heap[f])
+                    sig.append((f, b.get_id()))
+                sub.setdefault(tuple(sig), []).append(s)
+            if len(sub) > 1:
+                # heaps with different fields touched: compare on the union, missing = untouched base
+                sub = {}
+                fields = set()
+                for s in grp:
+                    fields |= set(s.heap)
+                for s in grp:
+                    sig = tuple((f, self._peel_fresh_stores(s.H(f))[0].get_id()) for f in sorted(fields))
+                    sub.setdefault(sig, []).append(s)
+            for g2 in sub.values():
+                out.append(g2[0] if len(g2) == 1 else self._merge_group(g2))
         return out
 
     def _peel_fresh_stores(self, arr):
